@@ -45,7 +45,10 @@ package transport
 // C07: the pooled parameter object is returned with every field zero on every exit path, panics included.
 // C03/C09: the operation is dispatched only if CreateOperationContext returned no error, at most once, and
 // then no status line other than the implicit 200 is written.
-//@ func (POST).Do [C07,C10,C03,C09]
+//@ func (POST).Do [C07,C10,C03,C09,C05]
+//@   ghost drained = false
+//@   at `responses(ctx)` ghost drained = callres0 == nil
+//@   ensures @C05 calls(DispatchOperation) >= 1 ==> drained
 //@   requires r != nil && w != nil && exec != nil
 //@   safe
 //@   at `exec.CreateOperationContext(ctx, params)` requires params != nil
@@ -108,7 +111,11 @@ package transport
 // ---------------------------------------------------------------- GET
 // C09: over GET only query operations are dispatched, and it is the operation selected by the executor
 // (op == opCtx.Operation) that is checked. C03: gate. C10: no own-code panic.
-//@ func (GET).Do [C09,C03,C10]
+//@ func (GET).Do [C09,C03,C10,C05]
+//@   replay deferLeak.go.tmpl
+//@   ghost drained = false
+//@   at `responses(ctx)` ghost drained = callres0 == nil
+//@   ensures @C05 calls(DispatchOperation) >= 1 ==> drained
 //@   requires r != nil && w != nil && exec != nil && r.URL != nil
 //@   safe
 //@   at `statusForGraphQLResponse(gqlError)` requires contentType == acceptApplicationGraphqlResponseJson && gqlError != nil
@@ -121,7 +128,11 @@ package transport
 //@   ensures calls(CreateOperationContext) == 0 ==> calls(DispatchOperation) == 0
 
 // ---------------------------------------------------------------- application/graphql
-//@ func (GRAPHQL).Do [C09,C03,C10]
+//@ func (GRAPHQL).Do [C09,C03,C10,C05]
+//@   replay deferLeak.go.tmpl
+//@   ghost drained = false
+//@   at `responses(ctx)` ghost drained = callres0 == nil
+//@   ensures @C05 calls(DispatchOperation) >= 1 ==> drained
 //@   requires r != nil && w != nil && exec != nil
 //@   safe
 //@   at `exec.CreateOperationContext(ctx, params)` requires params != nil
@@ -140,7 +151,11 @@ package transport
 //@ func (UrlEncodedForm).parseBody [C10]
 //@   ensures res1 == nil ==> res0 != nil
 //@   safe
-//@ func (UrlEncodedForm).Do [C09,C03,C10]
+//@ func (UrlEncodedForm).Do [C09,C03,C10,C05]
+//@   replay deferLeak.go.tmpl
+//@   ghost drained = false
+//@   at `responses(ctx)` ghost drained = callres0 == nil
+//@   ensures @C05 calls(DispatchOperation) >= 1 ==> drained
 //@   requires r != nil && w != nil && exec != nil
 //@   safe
 //@   at `exec.CreateOperationContext(ctx, params)` requires params != nil
@@ -161,7 +176,10 @@ package transport
 //@ trusted (*sync.Mutex).Unlock()
 //@   nopanic
 //@   pure
-//@ func (SSE).Do [C03,C10]
+//@ func (SSE).Do [C03,C10,C05]
+//@   ghost drained = false
+//@   at `responses(ctx)` ghost drained = callres0 == nil
+//@   ensures @C05 calls(DispatchOperation) >= 1 ==> drained
 //@   requires r != nil && w != nil && exec != nil
 //@   safe
 //@   at `exec.CreateOperationContext(ctx, params)` requires params != nil
@@ -179,7 +197,10 @@ package transport
 //@ trusted (time.Duration).Milliseconds() (ms)
 //@   nopanic
 //@   pure
-//@ func (MultipartMixed).Do [C03,C10]
+//@ func (MultipartMixed).Do [C03,C10,C05]
+//@   ghost drained = false
+//@   at `responses(ctx)` ghost drained = callres0 == nil
+//@   ensures @C05 calls(DispatchOperation) >= 1 ==> drained
 //@   requires r != nil && w != nil && exec != nil
 //@   safe
 //@   at `exec.CreateOperationContext(ctx, params)` requires params != nil
@@ -245,7 +266,10 @@ package transport
 // C10: the request body is read only through the size-limited reader (the limit is installed before the
 // multipart reader captures r.Body); every temporary file that was created has a deferred removal registered
 // before anything else can fail (ghost counters created/scheduled); gate as for the other transports.
-//@ func (MultipartForm).Do [C10,C03,C09]
+//@ func (MultipartForm).Do [C10,C03,C09,C05]
+//@   ghost drained = false
+//@   at `responses(ctx)` ghost drained = callres0 == nil
+//@   ensures @C05 calls(DispatchOperation) >= 1 ==> drained
 //@   requires r != nil && w != nil && exec != nil
 //@   safe
 //@   ghost limited = false
@@ -295,7 +319,10 @@ package transport
 // C10: any start payload (including JSON null) - no nil dereference; C03: the operation is dispatched (on the
 // goroutine) only when CreateOperationContext returned no error; C04: the subscription goroutine never lets a
 // panic escape (spawn rule).
-//@ func (*wsConnection).subscribe [C10,C03,C04,C11]
+//@ func (*wsConnection).subscribe [C10,C03,C04,C11,C05]
+//@   ghost drained = false
+//@   at `responses(ctx)` ghost drained = callres0 == nil
+//@   goensures @C05 panicked || drained
 //@   requires c != nil && msg != nil && c.exec != nil && c.active != nil
 //@   stable wsConnection.active wsConnection.exec
 //@   safe
